@@ -62,7 +62,11 @@ def under(path: str, base: str) -> bool:
 def run_history(acc: Acc, r: random.Random, workdir: str, hid: int, n_steps: int, shape: str | None = None, script: list | None = None, inproc: bool = False) -> None:
 	shape = shape or r.choice(['chain', 'diamond', 'deep', 'deep'])
 	own_grammar = bool(script and script[0][0] == 'g') or (not script and r.random() < 0.3)
-	h = History(r, shape, workdir, f'h{hid}', own_grammar=own_grammar)
+	# in some projects the module that decides the types is a symbolic link to a file outside the input globs
+	symlinked = (script[0][0] if script and script[0][0] in ('l', 'k') and hid % 2 == 1 else None) if script else (r.choice(['l', 'u']) if r.random() < 0.25 else None)
+	h = History(r, shape, workdir, f'h{hid}', own_grammar=own_grammar, symlinked=symlinked)
+	if symlinked:
+		acc.see('project_variant', 'module file is a symbolic link: ' + symlinked)
 	case_base = {'kind': 'history', 'seed': hid}
 	# first run creates the caches
 	p, _ = h.run(True)
